@@ -5,6 +5,7 @@ import numpy as np
 from .. import core
 
 PROP_FILE = 'Knee/Props/C17.lean'
+PROP_FILES = ['Knee/Props/C17.lean', 'Knee/Props/Invariance.lean']
 RULE = ('point sets / segments / rectangles / triples on dyadic grids (degenerate ones included: a == b, points beyond the segment ends, collinear '
         'triples, touching and nested rectangles). Exact-Q model values (squared distances, IoU, squared Menger curvature, signed area) are compared with '
         'the float results under |f - q| <= 1e-9*(|q| + scale); rank is compared exactly (distinct values) or relationally (ties). Direct predicates: sub-range '
